@@ -107,8 +107,11 @@ def _poll_filter_drops(ctx, prog, R, poll):
                 while isinstance(t, ast.UnaryOp) and isinstance(t.op, ast.Not):
                     t, pol = t.operand, not pol  # else-branch of ``if not proj``
                 tests.append((t, pol))
-            exact = len(tests) == 1 and tests[0][1] and canon(tests[0][0]) == fs.p_proj
-            ctx.check(exact, fs.fn, st.stmt, f"projection executed iff {fs.p_proj}", f"the filter projects candidates onto the box under '{' and '.join(canon(t, neg=not p_) for t, p_ in tests) or 'no guard'}', not exactly when its projection flag is set: poll candidates beyond a bound are moved onto it (and evaluated off the stencil) instead of being dropped", construct="filter projection guard")
+            # the guards on the path to the clamp are a conjunction: the clamp runs only when the flag is set iff the flag is
+            # one of the conjuncts (a further conjunct - "something sticks out" - only skips a clamp, which the box tags of
+            # C01 / C17 account for)
+            exact = any(pol_ and canon(t_) == fs.p_proj for t_, pol_ in tests)
+            ctx.check(exact, fs.fn, st.stmt, f"projection executed only if {fs.p_proj}", f"the filter projects candidates onto the box under '{' and '.join(canon(t, neg=not p_) for t, p_ in tests) or 'no guard'}', not exactly when its projection flag is set: poll candidates beyond a bound are moved onto it (and evaluated off the stencil) instead of being dropped", construct="filter projection guard")
 
 
 def check(ctx):
